@@ -563,7 +563,7 @@ Proof. intros. unfold src_slice, slice. cbn. reflexivity. Qed.
 
 (* when the event is at least as long as the buffer: the empty stream or a panic, nothing else *)
 Lemma overflow_lemma : forall schema cfg rec B ser buffer,
-  verify_config schema cfg = true ->
+  chains_ok schema cfg ->
   (length schema <= length (r_fields rec))%nat ->
   new_serializer schema cfg B = Ok ser ->
   length buffer = B ->
@@ -576,7 +576,7 @@ Lemma overflow_lemma : forall schema cfg rec B ser buffer,
 Proof.
   intros schema cfg rec B ser buffer V L Hnew LB Hbig.
   destruct (new_serializer_inv _ _ _ _ Hnew) as (Hm & Hk & Hek & Hloc & Hrw & Hb).
-  pose proof (fun n ch => verified_chain schema cfg n ch V) as Hver.
+  pose proof V as Hver.
   pose proof (locate_all_length _ _ _ Hloc) as Hnloc.
   unfold serialize_record_from, encode_record_on. rewrite Hm, Hk, Hek, Hnloc. rewrite map_length.
   replace (length schema <=? length (r_fields rec))%nat with true by lia. cbn [obind].
@@ -661,7 +661,7 @@ Qed.
 (* SerializeRecord is total (Ok or panic, the unescape loop never runs out of fuel); a panic happens only when the
    event does not fit; and a stream that is emitted is empty or the complete event - never a truncated one *)
 Theorem never_garbage_lemma : forall schema cfg rec B ser buffer,
-  verify_config schema cfg = true ->
+  chains_ok schema cfg ->
   (length schema <= length (r_fields rec))%nat ->
   new_serializer schema cfg B = Ok ser ->
   length buffer = B ->
@@ -682,7 +682,7 @@ Qed.
    in it - two buffers of the same length emit the same non-empty streams.  (The correspondence run evaluates the
    model on a zeroed buffer.) *)
 Theorem buffer_contents_irrelevant_lemma : forall schema cfg rec B ser buffer1 buffer2 stream,
-  verify_config schema cfg = true ->
+  chains_ok schema cfg ->
   (length schema <= length (r_fields rec))%nat ->
   new_serializer schema cfg B = Ok ser ->
   length buffer1 = B -> length buffer2 = B ->
@@ -696,4 +696,45 @@ Proof.
     rewrite (encode_buf_spec_from_lemma schema cfg rec B ser buffer2 V L Hnew L2 Hfit). exact H1.
   - pose proof (overflow_lemma schema cfg rec B ser buffer1 V L Hnew L1 Hbig) as O1.
     rewrite H1 in O1. contradiction.
+Qed.
+
+(* from VerifyConfig alone: the serializer exists and every event that fits decodes to the record *)
+Theorem accepted_config_serializes_lemma : forall schema cfg B,
+  verify_config schema cfg = true ->
+  N.of_nat (length schema) < 65535 ->
+  N.of_nat (length (c_env cfg)) < 65536 ->
+  N.of_nat B <= 4294967296 ->
+  exists ser, new_serializer schema cfg B = Ok ser /\
+    forall rec buffer,
+      (length schema <= length (r_fields rec))%nat -> length buffer = B ->
+      (length (encode_spec schema cfg rec) < B)%nat ->
+      exists stream,
+        serialize_record_from ser rec buffer = Ok stream /\ stream <> [] /\
+        decode_all stream = Some (event_tree schema cfg rec, []).
+Proof.
+  intros schema cfg B V Hns Hne HB. destruct (new_serializer_ok schema cfg B V) as [ser Hser].
+  exists ser. split; [exact Hser|]. intros rec buffer L Hbuf Hfit.
+  exact (decode_serialized_lemma schema cfg rec B ser buffer (verified_chain schema cfg V) L Hns Hne HB Hser Hbuf Hfit).
+Qed.
+
+(* a test on literals at the fixmap limit: 15 schema fields "a".."o", no environment field, every field visible:
+   the root map has 16 entries (15 + "environment") and is written as map16 *)
+Definition ex15_schema : list bytes := map (fun c => [c]) [97;98;99;100;101;102;103;104;105;106;107;108;109;110;111].
+Definition ex15_cfg : ser_config := {| c_env := []; c_hidden := []; c_rewrite := [] |}.
+Definition ex15_rec : record :=
+  {| r_fields := map (fun c => [c; c]) [65;66;67;68;69;70;71;72;73;74;75;76;77;78;79];
+     r_unix := 1; r_nsec := 2; r_unescaped := false |}.
+
+Lemma example15_lemma :
+  chains_ok ex15_schema ex15_cfg /\
+  length (visible ex15_schema ex15_cfg ex15_rec) = 15%nat /\
+  (exists ser, new_serializer ex15_schema ex15_cfg 200 = Ok ser /\
+               serialize_record ser ex15_rec = Ok (encode_spec ex15_schema ex15_cfg ex15_rec)) /\
+  nth_error (encode_spec ex15_schema ex15_cfg ex15_rec) 11 = Some 222 /\
+  decode_all (encode_spec ex15_schema ex15_cfg ex15_rec) = Some (event_tree ex15_schema ex15_cfg ex15_rec, []).
+Proof.
+  split; [intros name ch H; discriminate H|]. split; [reflexivity|]. split.
+  - destruct (new_serializer ex15_schema ex15_cfg 200) as [ser| |] eqn:E; try (vm_compute in E; discriminate).
+    exists ser. split; [reflexivity|]. vm_compute in E. inversion E; subst. vm_compute. reflexivity.
+  - split; vm_compute; reflexivity.
 Qed.
